@@ -78,6 +78,15 @@ class Lib:
                 n = self.e.uf("frac!num", z3.RealSort(), z3.IntSort())(o.term)
                 ctx.assume(z3.Implies(z3.IsInt(o.term), z3.ToReal(n) == o.term))
                 return n
+        if isinstance(o, (V.ExtModule, V.Builtin)) and getattr(o, "bound", None) is None and o.name == "string" \
+                and name in ("ascii_letters", "ascii_lowercase", "ascii_uppercase", "digits", "hexdigits", "octdigits"):
+            import string as _string
+
+            return getattr(_string, name)  # constants of the running interpreter's `string` module
+        from . import strmodel as _sm
+
+        if isinstance(o, _sm.RegexV):
+            return V.Builtin("method." + name, bound=o)
         if isinstance(o, V.ExtModule):
             return V.Builtin(o.name + "." + name)
         if isinstance(o, V.Builtin) and o.bound is None:
@@ -430,6 +439,12 @@ class Lib:
         if isinstance(container, str):
             if isinstance(item, str):
                 return item in container
+            from . import strmodel as _sm
+
+            if _sm.ENABLED:
+                r = _sm.char_in_concrete(self.e, ctx, container, item)
+                if r is not None:
+                    return r
             return z3.Contains(z3.StringVal(container), item)
         if isinstance(container, z3.ExprRef) and z3.is_string(container):
             return z3.Contains(container, V.Str.unwrap(item))
@@ -489,6 +504,12 @@ class Lib:
             except IndexError:
                 raise self.raise_ext("IndexError")
         if isinstance(o, z3.ExprRef) and z3.is_string(o):
+            from . import strmodel as _sm
+
+            if _sm.ENABLED:
+                r = _sm.first_char(self.e, ctx, o, k)
+                if r is not None:
+                    return r
             kt = V.Int.unwrap(k)
             n = z3.Length(o)
             idx = z3.If(kt < 0, kt + n, kt)
@@ -1047,6 +1068,10 @@ class Lib:
 
     @staticmethod
     def kind_of(o):
+        from . import strmodel as _sm
+
+        if isinstance(o, _sm.RegexV):
+            return "regex"
         if isinstance(o, V.GroupSlot):
             return "groupslot"
         if isinstance(o, V.GroupDict):
@@ -1211,6 +1236,22 @@ class Lib:
 
     def m_str_format(self, ctx, o, *a, **k):
         return V.Opaque("formatted")
+
+    def bi_re_compile(self, ctx, pattern, flags=0):
+        from . import strmodel as _sm
+
+        if not isinstance(pattern, str) or not isinstance(flags, int):
+            raise EngineLimit("re.compile of a non-constant pattern")
+        return _sm.compile_pattern(pattern, flags)
+
+    def m_regex_match(self, ctx, o, subject):
+        # a match object is truthy, None is not: modelled as an Optional whose presence is the match condition
+        from . import strmodel as _sm
+
+        c = _sm.match_term(self.e, ctx, o, subject)
+        if isinstance(c, bool):
+            return True if c else None
+        return OptV(z3.Not(c), True)
 
     def m_frac___pow__(self, ctx, o, x):
         raise EngineLimit("Fraction power")
